@@ -159,6 +159,41 @@ theorem stepC_of_uniq {θ : Subst} {st s1 st' : RSt} {L : List SStmt} {a c : Boo
   rw [hu] at h
   exact h
 
+/-- two rewriting steps one after the other (converse direction) -/
+theorem stepC_seq {θ : Subst} {st s1 st' : RSt} {L1 L2 : List SStmt} {a1 c1 a2 c2 : Bool}
+    {run1 run2 : List (SVal × Bool) → SEnv → Option SEnv} (hu1 : st.uniq ≤ s1.uniq) (hu2 : s1.uniq ≤ st'.uniq)
+    (hc1 : StepC θ st s1 L1 a1 c1 run1) (hc2 : StepC θ s1 st' L2 a2 c2 run2) :
+    StepC θ st st' (L1 ++ L2) (a1 && a2) (c1 && c2)
+      (fun gs σ => match run1 gs σ with | some σ1 => run2 gs σ1 | none => none) := by
+  intro Γ gs σs σr σs' hrel hθ hgs hΓ helse hfor hrun
+  simp only at hrun
+  cases hex1 : run1 gs σs with
+  | none => simp [hex1] at hrun
+  | some σs1 =>
+    simp only [hex1] at hrun
+    have helse1 : a1 = false → elseOnly Γ = true := fun hh => helse (by simp [hh])
+    have helse2 : a2 = false → elseOnly Γ = true := fun hh => helse (by simp [hh])
+    have hfor1 : c1 = false → Γ = [] := fun hh => hfor (by simp [hh])
+    have hfor2 : c2 = false → Γ = [] := fun hh => hfor (by simp [hh])
+    have hΓ1 : GammaFresh st.uniq s1.uniq Γ := hΓ.mono (Nat.le_refl _) hu2
+    have hΓ2 := hΓ.mono hu1 (Nat.le_refl _)
+    obtain ⟨σ1, hr1, hrel1, hθ1, hfr1⟩ := hc1 Γ gs σs σr σs1 hrel hθ hgs hΓ1 helse1 hfor1 hex1
+    have hgs1 : guardVals σ1 Γ = some gs := by rw [guardVals_frame hfr1 hΓ1]; exact hgs
+    obtain ⟨σr', hr2, hrel2, hθ2, hfr2⟩ := hc2 Γ gs σs1 σ1 σs' hrel1 hθ1 hgs1 hΓ2 helse2 hfor2 hrun
+    refine ⟨σr', ?_, hrel2, hθ2, ?_⟩
+    · simp only [List.map_append, wrapF_append, runA_append, hr1]
+      exact hr2
+    · intro n hn hfresh
+      rw [hfr2 n hn (fun k hk1 hk2 => hfresh k (by omega) hk2),
+        hfr1 n hn (fun k hk1 hk2 => hfresh k hk1 (by omega))]
+
+theorem stepC_congr {θ : Subst} {st st' : RSt} {L : List SStmt} {a c a' c' : Bool}
+    {run run' : List (SVal × Bool) → SEnv → Option SEnv} (h : StepC θ st st' L a c run)
+    (ha : a' = a) (hc : c' = c) (hr : ∀ gs σ, run' gs σ = run gs σ) : StepC θ st st' L a' c' run' := by
+  subst ha hc
+  have : run' = run := by funext gs σ; exact hr gs σ
+  rw [this]; exact h
+
 theorem foldlM_cons_some {α : Type} (f : SEnv → α → Option SEnv) (a : α) (l : List α) (σ σ' : SEnv)
     (h : (a :: l).foldlM f σ = some σ') : ∃ σ1, f σ a = some σ1 ∧ l.foldlM f σ1 = some σ' := by
   simp only [List.foldlM_cons, bind, Option.bind] at h
@@ -365,40 +400,50 @@ theorem mlc_stmt : ∀ (s : SStmt), okS s = true → ∀ (θ : Subst) (st st' : 
           have h2 : σr' n = σ2 n := hfre n hn (fun k hk1 hk2 => hfresh k (by omega) (by omega))
           rw [h2, h1, set_ne _ _ _ _ (hfresh (s2.uniq + 1) (by omega) (by omega))]
   | .for_ tg it b e, hok, θ, st, st', L, h, hk, hib => by
-    obtain ⟨v, rfl, rfl, hv, hit, hb⟩ := okS_for_inv tg it b e hok
-    simp only [rwS, rm_bind_ok, substE_closedIter it hit θ] at h
-    obtain ⟨_, s0, hnote, vals, s1, hiter, hloop⟩ := h
+    obtain ⟨v, rfl, hv, hit, hb, he⟩ := okS_for_inv tg it b e hok
+    simp only [rwS, rm_bind_ok, rm_pure_ok, substE_closedIter it hit θ] at h
+    obtain ⟨_, s0, hnote, vals, s1, hiter, Lr, s2, hloop, Le, s3, htail, rfl, rfl⟩ := h
     have hc0 := noteFor_core _ _ _ _ hnote
     obtain ⟨hstatic, hc1, hvals⟩ := forIter_static it hit s0 s1 vals hiter
     have hk1 : KnownOK s1 := (hk.core hc0).core hc1
     have hu1 : s1.uniq = st.uniq := by rw [hc1.1, hc0.1]
-    have hexec : ∀ gs σs, exec gs σs (.for_ (.name v) it b []) = vals.foldlM (forStep gs v b) σs := by
-      intro gs σs; rw [exec_for, hstatic]
-    have hflag : (!hasIf (.for_ (.name v) it b [])) = (!hasIfs b) := by simp [hasIf, hasIfs]
-    have hflag2 : (!hasFor (.for_ (.name v) it b [])) = false := by simp [hasFor]
-    rw [hflag, hflag2]
-    rcases substE_name θ hib v with ⟨hname, hvθ⟩ | ⟨k, hconst⟩
-    · rw [hname] at hloop
-      have hib' : ∀ val, isIB val = true → ∀ p ∈ θ ++ [(v, val)], isIB p.2 = true := by
-        intro val hval p hp
-        simp only [List.mem_append, List.mem_singleton] at hp
-        rcases hp with hp | rfl
-        · exact hib p hp
-        · exact hval
-      have hmain := forLoop_mlc θ v b hv hvθ
-        (fun val hval s s' L' hr hks => ⟨ml_list b hb (θ ++ [(v, val)]) s s' L' hr hks (hib' val hval),
-          mlc_list b hb (θ ++ [(v, val)]) s s' L' hr hks (hib' val hval)⟩)
-        vals hvals s1 st' L hloop hk1
-      have := stepC_of_uniq hmain hu1
-      simpa only [hexec] using this
-    · rw [hconst] at hloop
-      obtain ⟨rfl, rfl, rfl⟩ := forLoop_const k _ vals s1 st' L hloop
-      intro Γ gs σs σr σs' hrel hθ _ _ _ _ hrun
-      have hrun' : exec gs σs (.for_ (.name v) it b []) = some σs' := hrun
-      rw [hexec] at hrun'
-      simp only [List.foldlM_nil, pure, Option.some.injEq] at hrun'
-      subst hrun'
-      exact ⟨σr, by simp [wrapF_nil, runA], hrel, hθ, fun n _ _ => rfl⟩
+    have hib' : ∀ val, isIB val = true → ∀ p ∈ θ ++ [(v, val)], isIB p.2 = true := by
+      intro val hval p hp
+      simp only [List.mem_append, List.mem_singleton] at hp
+      rcases hp with hp | rfl
+      · exact hib p hp
+      · exact hval
+    have hloopBoth : StepOK θ s1 s2 Lr (!hasIfs b) false (fun gs σs => vals.foldlM (forStep gs v b) σs) ∧
+        StepC θ s1 s2 Lr (!hasIfs b) false (fun gs σs => vals.foldlM (forStep gs v b) σs) := by
+      rcases substE_name θ hib v with ⟨hname, hvθ⟩ | ⟨k, hconst⟩
+      · rw [hname] at hloop
+        exact ⟨forLoop_ml θ v b hv hvθ
+            (fun val hval s s' L' hr hks => ml_list b hb (θ ++ [(v, val)]) s s' L' hr hks (hib' val hval))
+            vals hvals s1 s2 Lr hloop hk1,
+          forLoop_mlc θ v b hv hvθ
+            (fun val hval s s' L' hr hks => ⟨ml_list b hb (θ ++ [(v, val)]) s s' L' hr hks (hib' val hval),
+              mlc_list b hb (θ ++ [(v, val)]) s s' L' hr hks (hib' val hval)⟩)
+            vals hvals s1 s2 Lr hloop hk1⟩
+      · rw [hconst] at hloop
+        obtain ⟨rfl, rfl, rfl⟩ := forLoop_const k _ vals s1 s2 Lr hloop
+        refine ⟨⟨hk1, Nat.le_refl _, fun x hx => by simp at hx, fun _ => rfl, ?_⟩, ?_⟩
+        · intro Γ gs σs σr σr' hrel hθ _ _ _ _ hrun
+          simp only [List.map_nil, wrapF_nil, runA, Option.some.injEq] at hrun
+          subst hrun
+          exact ⟨σs, rfl, hrel, hθ, fun n _ _ => rfl⟩
+        · intro Γ gs σs σr σs' hrel hθ _ _ _ _ hrun
+          simp only [List.foldlM_nil, pure, Option.some.injEq] at hrun
+          subst hrun
+          exact ⟨σr, by simp [wrapF_nil, runA], hrel, hθ, fun n _ _ => rfl⟩
+    obtain ⟨hloopOK, hloopC⟩ := hloopBoth
+    have htailOK := ml_list e he θ s2 _ Le htail hloopOK.1 hib
+    have htailC := mlc_list e he θ s2 _ Le htail hloopOK.1 hib
+    refine stepC_of_uniq (stepC_congr (stepC_seq hloopOK.2.1 htailOK.2.1 hloopC htailC) ?_ ?_ ?_) hu1
+    · simp [hasIf, Bool.not_or]
+    · simp [hasFor]
+    · intro gs σ
+      rw [exec_for, hstatic]
+      rfl
   | .ann _ _ _, hok, _, _, _, _, _, _, _ => by simp [okS] at hok
   | .ret _, hok, _, _, _, _, _, _, _ => by simp [okS] at hok
   | .expr _, hok, _, _, _, _, _, _, _ => by simp [okS] at hok
